@@ -24,6 +24,7 @@
 #include <iostream>
 #include <stdexcept>
 #include <string>
+#include <string_view>
 #include "celma/common/length_type.hpp"
 #include "celma/common/detail/fixed_string_iterator.hpp"
 #include "celma/common/detail/fixed_string_reverse_iterator.hpp"
@@ -3499,7 +3500,7 @@ template< size_t L>
    std::ostream& operator <<( std::ostream& os, const FixedString< L>& fs)
       noexcept
 {
-   return os << fs.c_str();
+   return os << std::string_view( fs.data(), fs.length());
 } // operator <<
 
 
